@@ -1,4 +1,4 @@
-import CattrsModel.Subclasses.Lemmas
+import CattrsModel.Subclasses.Plain
 /-!
 # C14 — `include_subclasses` preserves the exact subclass through a base-typed round trip
 
@@ -237,6 +237,46 @@ hook (so a `forbid_extra_keys` hook sees the tag), while its unstructure hook is
 theorem C14_union_leaf_keeps_own_hook (tr : Tree) (us : UStrat) (forbid : Bool) (H : Tagged.Hooks) (K : Nat)
     (hleaf : (tr.subclassesOf K).length ≤ 1) (p : Obj) : stUnion tr us forbid H K p = H.st K p :=
   stUnion_leaf tr us forbid H K hleaf p
+
+/-! ## the hierarchy, not the discovered list: every descendant, through any intermediate classes
+
+The theorems above quantify over the classes the strategy DISCOVERED (`tr.unionClasses`, `tr.descendants K`).  The
+property speaks of the hierarchy ("every class K of the hierarchy and every instance of K or of any descendant of K").
+`Tree.Desc` is the hierarchy relation read off the class statements; the next theorems show that nothing is lost on the
+way — whatever the classes in between declare, in particular when they declare nothing at all (plain, undecorated,
+behaviour-only classes between attrs classes / dataclasses; undecorated leaves). -/
+
+/-- **C14_discovery_complete.**  In every hierarchy (classes created after their bases) the walk over `__subclasses__()`
+finds every class `K` below the root, and every `D` that is `K` or has `K` among its bases — through any number of
+intermediate classes — is a member of what the strategy takes for "`K` and its subclasses". -/
+theorem C14_discovery_complete (tr : Tree) (hpb : tr.ParentsBelow) (K D : Nat) (hD : D < tr.size)
+    (hK : tr.Desc K 0) (hDK : tr.Desc D K) : K ∈ tr.unionClasses ∧ D ∈ tr.descendants K :=
+  ⟨mem_unionClasses_of_desc hpb (Nat.lt_of_le_of_lt (hDK.le hpb) hD) hK, mem_subclassesOf_of_desc hpb hD hK hDK⟩
+
+/-- **C14_exact_subclass_hierarchy_partial.**  The round-trip theorem for the hierarchy relation itself: `K` any class of
+the hierarchy, `D` equal to `K` or below it through ANY chain of bases.  (Partial for the same reason as
+`C14_exact_subclass_partial`: the regions of the recorded findings are excluded.) -/
+theorem C14_exact_subclass_hierarchy_partial (S : Setup) (hok : TreeOK S) (hpb : S.tr.ParentsBelow) (K D : Nat)
+    (hD : D < S.tr.size) (hK : S.tr.Desc K 0) (hDK : S.tr.Desc D K)
+    (x : Obj) (kvs : List (Obj × Obj)) (hx : ConformsExact S D x kvs)
+    (h15 : ¬ F15Region S K) (h43 : ¬ F47Region S) (h65 : ¬ F65Region S) (h66 : ¬ F66Region S) :
+    S.roundTrip K x = some x :=
+  have h := C14_discovery_complete S.tr hpb K D hD hK hDK
+  C14_exact_subclass_partial S hok K D h.1 h.2 x kvs hx h15 h43 h65 h66
+
+/-- **C14_undecorated_inherits_fields.**  A class that declares no fields — an undecorated, behaviour-only class (or a
+decorated one with an empty body) — has exactly its base's fields: to the strategy, the disambiguator and the generated
+hooks it is an attrs class / dataclass like its base, and a legitimate `K` and `D` of the theorems above. -/
+theorem C14_undecorated_inherits_fields (tr : Tree) (hpb : tr.ParentsBelow) (c q : Nat) (hc : c < tr.size)
+    (hp : (tr.node c).parent = some q) (hown : (tr.node c).own = []) : tr.fields c = tr.fields q :=
+  fields_of_undecorated hpb hc hp hown
+
+/-- **C14_own_filter_invisible_when_all_decorated.**  A discovery that keeps only subclasses which were THEMSELVES
+decorated (`Tree.preorderOwnF`, not the code) finds exactly what the real one finds as long as every class is decorated:
+hierarchies without undecorated classes cannot tell the two apart — the check has to generate undecorated ones. -/
+theorem C14_own_filter_invisible_when_all_decorated (tr : Tree) (dec : Deco) (hall : ∀ c, dec c = true) (n c : Nat) :
+    tr.preorderOwnF dec n c = tr.preorderF n c :=
+  preorderOwnF_eq_of_all_decorated tr dec hall n c
 
 /-! ## non-vacuity and negative witnesses -/
 section Examples
@@ -521,6 +561,68 @@ theorem C14_F66_inner_before_ancestor_witness :
     (c14Chain [] true).roundTrip 1 (.inst 2 [("a", .int 1), ("b", .int 2), ("c", .int 3)]) =
       some (.inst 2 [("a", .int 1), ("b", .int 2), ("c", .int 3)]) :=
   ⟨not_orderOK_of_B (by decide), by decide, by decide, by decide, by decide, by decide⟩
+
+/-- `Shape{a}` > `Polygon` (UNDECORATED: behaviour only) > {`Triangle{b}`, `Rect{c}` > `Square{d}`}; `Shape` > `Circle{e}` -/
+def c14ShapeTree : Tree :=
+  { nodes := [⟨Option.none, [c14Fld "a"]⟩, ⟨some 0, []⟩, ⟨some 1, [c14Fld "b"]⟩, ⟨some 1, [c14Fld "c"]⟩,
+              ⟨some 3, [c14Fld "d"]⟩, ⟨some 0, [c14Fld "e"]⟩] }
+
+/-- which of them were themselves decorated: all but `Polygon` -/
+def c14ShapeDec : Deco := fun c => c != 1
+
+def c14Shape (forbid : Bool) : Setup :=
+  { tr := c14ShapeTree, strategy := .union ⟨"_type", fun c => .int c⟩, forbid := forbid,
+    H := concHooks c14ShapeTree forbid, so := Disambig.SetOrder.id, uo := UnionOrder.id _ }
+
+def c14Square : Obj := .inst 4 [("a", .int 1), ("c", .int 3), ("d", .int 4)]
+def c14SquareKvs : List (Obj × Obj) := [(.str "a", .int 1), (.str "c", .int 3), (.str "d", .int 4)]
+
+theorem c14Shape_pb : c14ShapeTree.ParentsBelow := parentsBelowB_sound (by decide)
+
+/-- `Square` is below `Shape` through `Rect` and the undecorated `Polygon` -/
+theorem c14Square_desc : c14ShapeTree.Desc 4 0 :=
+  .step (q := 3) rfl (.step (q := 1) rfl (.step (q := 0) rfl (.refl 0)))
+
+/-- non-vacuity of `C14_exact_subclass_hierarchy_partial`: a `Square` through the root `Shape`, two decorated and one
+undecorated class in between (union strategy, `forbid_extra_keys`) -/
+example : (c14Shape true).roundTrip 0 c14Square = some c14Square :=
+  C14_exact_subclass_hierarchy_partial (c14Shape true) (treeOKUnionB_sound (by decide)) c14Shape_pb 0 4 (by decide)
+    (.refl 0) c14Square_desc c14Square c14SquareKvs
+    ⟨rfl, by decide, by decide, by decide, fun h => by cases h⟩
+    (fun h => by have := h.2.2; revert this; decide) (fun h => h) (fun h => by have := h.1; revert this; decide)
+    (fun h => h (orderOKB_sound (by decide)))
+
+/-- … and through `K = Polygon`, the undecorated class itself -/
+example : (c14Shape true).roundTrip 1 c14Square = some c14Square :=
+  C14_exact_subclass_hierarchy_partial (c14Shape true) (treeOKUnionB_sound (by decide)) c14Shape_pb 1 4 (by decide)
+    (.step (q := 0) rfl (.refl 0)) (.step (q := 3) rfl (.step (q := 1) rfl (.refl 1))) c14Square c14SquareKvs
+    ⟨rfl, by decide, by decide, by decide, fun h => by cases h⟩
+    (fun h => by have := h.2.2; revert this; decide) (fun h => h) (fun h => by have := h.1; revert this; decide)
+    (fun h => h (orderOKB_sound (by decide)))
+
+/-- non-vacuity of `C14_undecorated_inherits_fields`: `Polygon` has `Shape`'s field -/
+example : c14ShapeTree.fields 1 = c14ShapeTree.fields 0 :=
+  C14_undecorated_inherits_fields c14ShapeTree c14Shape_pb 1 0 (by decide) rfl rfl
+
+/-- **C14_undecorated_layer_witness** (what the regression "keep only subclasses that were themselves decorated, in front
+of the recursion" would show).  On the Shape hierarchy the decoration marking fits (the undecorated class declares
+nothing), the real discovery finds all six classes and an instance of `Square` round-trips through `Shape` and through the
+undecorated `Polygon` — while the filtering discovery is left with `Shape` and `Circle`: `Polygon` AND ITS WHOLE SUBTREE
+are gone, so `Square` would be unknown to `Shape`'s union. -/
+theorem C14_undecorated_layer_witness :
+    c14ShapeDec.Fits c14ShapeTree ∧ c14ShapeTree.unionClasses = [0, 1, 2, 3, 4, 5] ∧
+    (c14Shape true).applyOk = true ∧
+    (c14Shape true).roundTrip 0 c14Square = some c14Square ∧ (c14Shape false).roundTrip 1 c14Square = some c14Square ∧
+    (c14Shape false).roundTrip 1 (.inst 1 [("a", .int 7)]) = some (.inst 1 [("a", .int 7)]) ∧
+    c14ShapeTree.preorderOwnF c14ShapeDec c14ShapeTree.size 0 = [0, 5] ∧
+    4 ∉ c14ShapeTree.preorderOwnF c14ShapeDec c14ShapeTree.size 0 := by
+  refine ⟨?_, by decide, by decide, by decide, by decide, by decide, by decide, by decide⟩
+  intro c hc
+  have : c = 1 := by
+    simp only [c14ShapeDec, bne_eq_false_iff_eq] at hc
+    exact hc
+  subst this
+  rfl
 
 end Examples
 
